@@ -123,6 +123,12 @@ JOBS = [
     Job('Geoid.height', 'Geoid::height', ['C20', 'C13', 'C14'], timeout=600, unwind=13, sat='cadical',
         replace=[('Geoid::rawval', dict(may_throw=True)), ('Math::AngNormalize', dict(ghost=False)), 'Math::LatFix'],
         description='geoid height: raster indices in range, NaN, frame of the thread-safe mode'),
+    Job('Geoid.height.history', 'Geoid::height', ['C20'], timeout=900, unwind=13, sat='cadical', harness='history', enforce=False,
+        replace=[('Geoid::rawval', dict(may_throw=True)), ('Math::AngNormalize', dict(ghost=False)), 'Math::LatFix'],
+        description='lemma: the values interpolated are the raster values of the cell whatever the cache state / threading mode; cache stays consistent'),
+    Job('Geoid.height.ranges', 'Geoid::height', ['C20'], timeout=14000, unwind=13, sat='cadical', harness='history', enforce=False, tier='thorough', defines=['GEOID_RANGE_LEMMAS'],
+        replace=[('Geoid::rawval', dict(may_throw=True)), ('Math::AngNormalize', dict(ghost=False)), 'Math::LatFix'],
+        description='lemma: cell indices inside the grid and interpolation weights in [0,1] (floating-point range reasoning with symbolic grid size)'),
 ]
 
 
